@@ -1314,6 +1314,28 @@ class PyCdlib:
             done = catalog.parse(data)
         self._cdfp.seek(old)
 
+    def _check_udf_vd_room(self):
+        # type: () -> None
+        """
+        An internal method to check that one more ISO9660 volume descriptor
+        fits in front of the UDF Main Volume Descriptor Sequence, which is kept
+        at extent 32 (see _udf_assign_extents).
+
+        Parameters:
+         None.
+        Returns:
+         Nothing.
+        """
+        if not self._has_udf:
+            return
+
+        num_descs = len(self.pvds) + len(self.brs) + len(self.svds) + len(self.vdsts)
+        num_descs += len(self.udf_beas) + len(self.udf_boots) + 1 + len(self.udf_teas)
+        if self.version_vd is not None:
+            num_descs += 1
+        if 16 + num_descs + 1 > 32:
+            raise pycdlibexception.PyCdlibInvalidInput('Too many ISO9660 volume descriptors to fit UDF')
+
     def _udf_assign_extents(self, udf_files, current_extent):
         # type: (List[inode.Inode], int) -> Tuple[int, int]
         """
@@ -5432,6 +5454,8 @@ class PyCdlib:
             self._check_new_paths(bootcatfile, rrname, joliet_bootcatfile,
                                   udf_bootcatfile, False)
 
+            self._check_udf_vd_room()
+
             # Step 2.
             br = headervd.BootRecord()
             br.new(b'EL TORITO SPECIFICATION')
@@ -6047,6 +6071,8 @@ class PyCdlib:
         """
         if not self._initialized:
             raise pycdlibexception.PyCdlibInvalidInput('This object is not initialized; call either open() or new() to create an ISO')
+
+        self._check_udf_vd_room()
 
         pvd = headervd.PrimaryOrSupplementaryVD(headervd.VOLUME_DESCRIPTOR_TYPE_PRIMARY)
         pvd.copy(self.pvd)
